@@ -38,7 +38,7 @@ def run(tier, seed):
     cov["negative_controls"] = ["ResetSeq=FALSE refutes SeqModeLocal"]
 
     vals = '{"v1","vn","vB","vm"}'
-    gens = [("orders", F.consts(WithHist="TRUE", MaxOpts=3 if not thorough else 4, Values='{"v7"}')),
+    gens = [("orders", F.consts(WithHist="TRUE", MaxOpts=4, Values='{"v7"}')),
             ("values", F.consts(WithHist="TRUE", MaxOpts=2, Values="{" + ", ".join(f'"{v}"' for v in E.VALUES) + "}", groups=["increment", "start", "minvalue", "cache"])
              if thorough else F.consts(WithHist="TRUE", MaxOpts=1, Values="{" + ", ".join(f'"{v}"' for v in E.VALUES) + "}")),
             ("leak", F.consts(WithHist="TRUE", MaxOpts=1, MaxStmts=3, WithTable="TRUE", Values='{"vm"}', groups=["start", "cache", "minvalue", "order"]))]
